@@ -16,10 +16,10 @@ RULE = ('for each built-in generator (textX->dot, textX->PlantUML, any->dot) and
         'different sizes, models with 1-30 objects, a model made of three files): a clean run counts the N write/flush/close/rename calls on the target; '
         'then EVERY k in 1..N is injected (exhaustive) under two models of the file object (write-through; buffered: text '
         'written so far is lost when the flush inside flush()/close() fails, as on a full disk), with the target absent, with an older target present plus overwrite, and with the target being a symbolic link '
-        '(valid + overwrite, dangling). Oracle: after the failure the output directory holds no new file (target absent; with overwrite the old '
+        '(valid + overwrite, dangling), and (every third k) with a second process that generates the same target from another input, completely, at the very moment the failure is raised. Oracle: after the failure the output directory holds no new file (target absent; with overwrite the old '
         'or the complete new content), and a following run without overwrite produces the complete file. distinct = '
         '(generator, model, k, pre-existing target); non-trivial = k > 1 (something was already written)')
-REQUIRED = {'fault_points_injected': 150, 'buffered_mode_faults': 75, 'write_through_faults': 75, 'generators': 3, 'clean_runs': 10, 'multi_file_model_cases': 1, 'with_existing_target': 40, 'with_symlink_target': 20, 'with_dangling_symlink_target': 20, 'followup_runs': 100}
+REQUIRED = {'fault_points_injected': 150, 'buffered_mode_faults': 75, 'write_through_faults': 75, 'generators': 3, 'clean_runs': 10, 'multi_file_model_cases': 1, 'with_existing_target': 40, 'with_symlink_target': 20, 'with_dangling_symlink_target': 20, 'followup_runs': 100, 'with_concurrent_second_writer': 30}
 
 GRAMMARS = [
     "Model: 'm' x=INT;",
@@ -44,6 +44,8 @@ class Proxy:
         st['log'].append(what)
         if st['fail_at'] is not None and st['calls'] == st['fail_at']:
             st['fired'] = what
+            if st.get('before_fail'):
+                st['before_fail']()
             raise OSError(28, 'injected failure at %s #%d' % (what, st['calls']))
 
     # Two models of the file object. 'through': every write reaches the file at once and only the failing call is lost.
@@ -94,7 +96,7 @@ class Proxy:
         return getattr(self._f, n)
 
 
-STATE = {'calls': 0, 'fail_at': None, 'log': [], 'root': None, 'fired': None, 'mode': 'through'}
+STATE = {'calls': 0, 'fail_at': None, 'log': [], 'root': None, 'fired': None, 'mode': 'through', 'before_fail': None}
 _installed = [False]
 
 
@@ -122,6 +124,8 @@ def install():
             STATE['log'].append('rename')
             if STATE['fail_at'] is not None and STATE['calls'] == STATE['fail_at']:
                 STATE['fired'] = 'rename'
+                if STATE.get('before_fail'):
+                    STATE['before_fail']()
                 raise OSError(28, 'injected failure at rename')
         return orig_replace(src, dst, *a, **k)
 
@@ -131,6 +135,8 @@ def install():
             STATE['log'].append('rename')
             if STATE['fail_at'] is not None and STATE['calls'] == STATE['fail_at']:
                 STATE['fired'] = 'rename'
+                if STATE.get('before_fail'):
+                    STATE['before_fail']()
                 raise OSError(28, 'injected failure at rename')
         return orig_rename(src, dst, *a, **k)
     builtins.open = open_
@@ -197,9 +203,49 @@ def run_case(ctx, ci, rep_base):
             model = mm.model_from_file(mfile)
             base = 'model%d.dot' % mi
         tpath = os.path.join(out, base)
+        # a second input with the same base name (other directory, other content): what another process generating the
+        # same target at the same time works on
+        src2 = os.path.join(tmp, 'src2')
+        os.makedirs(src2)
+        if gi == 'mf':
+            for nm, t in MF_FILES.items():
+                with open(os.path.join(src2, nm), 'w') as f:
+                    f.write(t.replace('def a def b', 'def zz def a def b def yy') if nm == 'main.m' else t)
+            mm2 = mm
+            model2 = mm.model_from_file(os.path.join(src2, 'main.m'))
+        elif lang == 'textX':
+            with open(os.path.join(src2, os.path.basename(gfile)), 'w') as f:
+                f.write("Other: 'o' z=INT;\n" + GRAMMARS[(gi + 1) % len(GRAMMARS)])
+            mm2 = mm
+            model2 = mm.model_from_file(os.path.join(src2, os.path.basename(gfile)))
+        else:
+            with open(os.path.join(src2, os.path.basename(mfile)), 'w') as f:
+                f.write('def other_first ' + MODELS[(mi + 1) % len(MODELS)])
+            mm2 = mm
+            model2 = mm.model_from_file(os.path.join(src2, os.path.basename(mfile)))
+        child_status = [None]
 
-        def run(fail_at, overwrite, mode='through'):
-            STATE.update(calls=0, fail_at=fail_at, log=[], root=os.path.abspath(out), fired=None, mode=mode)
+        def second_writer():
+            # runs at the fault point of the failing run, i.e. while that run has its output open: a healthy run of another
+            # process (own pid) generates the same target with overwrite and finishes; then the failure is raised
+            pid = os.fork()
+            if pid == 0:
+                rc = 3
+                try:
+                    STATE.update(fail_at=None, root=None, before_fail=None)
+                    gen(mm2, model2, out, True, False)
+                    rc = 0
+                except BaseException:
+                    rc = 4
+                finally:
+                    os._exit(rc)
+            _, st = os.waitpid(pid, 0)
+            child_status[0] = os.waitstatus_to_exitcode(st)
+
+        def run(fail_at, overwrite, mode='through', concurrent=False):
+            STATE.update(calls=0, fail_at=fail_at, log=[], root=os.path.abspath(out), fired=None, mode=mode,
+                         before_fail=second_writer if concurrent else None)
+            child_status[0] = None
             try:
                 gen(mm, model, out, overwrite, False)
                 return None
@@ -208,6 +254,7 @@ def run_case(ctx, ci, rep_base):
             finally:
                 STATE['root'] = None
                 STATE['fail_at'] = None
+                STATE['before_fail'] = None
         err = run(None, False)
         ctx.count('clean_runs')
         if err is not None or not os.path.exists(tpath):
@@ -215,12 +262,21 @@ def run_case(ctx, ci, rep_base):
         with open(tpath, encoding='utf-8') as f:
             complete = norm(f.read())
         n = STATE['calls']
+        os.remove(tpath)
+        STATE.update(calls=0, fail_at=None, log=[], root=None, fired=None, mode='through', before_fail=None)
+        gen(mm2, model2, out, False, False)
+        with open(tpath, encoding='utf-8') as f:
+            complete2 = norm(f.read())
+        if complete2 == complete or complete2.startswith(complete) or complete.startswith(complete2):
+            raise RuntimeError('harness: the second input must give another output')
         ctx.note('calls_in_clean_run_%s_%s_%s' % (lang, target, gi if mi is None else 'm%s' % mi), n)
         os.remove(tpath)
         store = os.path.join(tmp, 'store')
         os.makedirs(store)
         for k, mode in [(k, mode) for k in range(1, n + 1) for mode in ('through', 'buffered')]:
-            for existing in (False, True, 'symlink', 'dangling'):
+            for existing in (False, True, 'symlink', 'dangling', 'concurrent'):
+                if existing == 'concurrent' and k % 3 != 1 and k < n - 2:
+                    continue
                 if existing is True and k % 2 == 0 and k < n - 3:
                     continue
                 if existing in ('symlink', 'dangling') and (k + (mode == 'buffered')) % 3 and k < n - 2:
@@ -230,10 +286,10 @@ def run_case(ctx, ci, rep_base):
                         os.remove(os.path.join(dd, fn))
                 old = norm('OLD CONTENT\n')
                 spath = os.path.join(store, base)
-                if existing is True:
+                if existing is True or existing == 'concurrent':
                     with open(tpath, 'w') as f:
                         f.write(old)
-                    ctx.count('with_existing_target')
+                    ctx.count('with_existing_target' if existing is True else 'with_concurrent_second_writer')
                 elif existing == 'symlink':
                     with open(spath, 'w') as f:
                         f.write(old)
@@ -242,7 +298,10 @@ def run_case(ctx, ci, rep_base):
                 elif existing == 'dangling':
                     os.symlink(spath, tpath)
                     ctx.count('with_dangling_symlink_target')
-                err = run(k, existing in (True, 'symlink'), mode)
+                err = run(k, existing in (True, 'symlink', 'concurrent'), mode, concurrent=existing == 'concurrent')
+                if existing == 'concurrent' and child_status[0] != 0:
+                    ctx.count('second_writer_did_not_finish')
+                    continue
                 ctx.count('buffered_mode_faults' if mode == 'buffered' else 'write_through_faults')
                 ctx.count('fault_points_injected')
                 rep = dict(rep_base, ci=ci)
@@ -274,11 +333,13 @@ def run_case(ctx, ci, rep_base):
                     if existing == 'symlink' and os.path.exists(spath):
                         with open(spath, encoding='utf-8') as f:
                             linked = norm(f.read())
-                    if left != [base] or content not in (old, complete) or (existing == 'symlink' and linked not in (old, complete)):
+                    allowed = (old, complete, complete2) if existing == 'concurrent' else (old, complete)
+                    if left != [base] or content not in allowed or (existing == 'symlink' and linked not in (old, complete)):
                         ctx.violation(None, '%s->%s with overwrite%s: failure at %s #%d of %d leaves %r, target holds %s' % (
                             lang, target, ' (target is a symbolic link)' if existing == 'symlink' else '', STATE['fired'], k, n, left,
-                            'neither the old nor the complete new content (%d bytes)' % len(content or linked or '')
-                            if (content not in (old, complete) or linked not in (None, old, complete)) else 'ok'), wit, rep)
+                            'neither the old nor a complete new content (%d bytes)%s' % (len(content or linked or ''),
+                                ' [a second process generated the same target, completely, while this run was failing]' if existing == 'concurrent' else '')
+                            if (content not in allowed or linked not in (None, old, complete)) else 'ok'), wit, rep)
                         continue
                     os.remove(tpath)
                 # follow-up run without overwrite
